@@ -768,7 +768,7 @@ func (g *gen) verifier() *tr.Node {
 	case 1, 7:
 		n.T = tr.HeaderVerifier
 		n.P["name"] = pick(t, "hname", tr.HdrNames)
-		n.P["value"] = pick(t, "hval", []string{"", "1", "2"})
+		n.P["value"] = pick(t, "hval", append([]string{"", ""}, tr.HeaderVals...))
 	case 2:
 		n.T = tr.MethodVerifier
 		n.P["method"] = pick(t, "method", []string{"GET", "POST"})
@@ -784,7 +784,7 @@ func (g *gen) verifier() *tr.Node {
 		n.P["message"] = fmt.Sprintf("fail-%d", n.ID)
 	case 6:
 		n.T = tr.PingbackVerifier
-		g.urlParts(n, tr.Hosts)
+		g.urlParts(n, append(append([]string{}, tr.Hosts...), tr.PortedHosts...))
 	}
 	tr.GenScope(t, n)
 	return n
@@ -892,6 +892,13 @@ func genExchange(t *rapid.T, badQueryOK bool) Op {
 			rq.Query = bad + "&" + rq.Query
 		default:
 			rq.Query += "&" + bad
+		}
+	}
+	if uni(t, "portedhost", 5) == 0 {
+		// authority with a port, bracketed IPv6 literal with and without one
+		rq.Host = pick(t, "phost", tr.PortedHosts)
+		if rq.HostH != "" {
+			rq.HostH = rq.Host
 		}
 	}
 	op := Op{K: "X", Req: &rq, Res: &rs}
